@@ -77,10 +77,26 @@ CUrlShape(f, l, sc, sp, t) ==
        IN lbl' = [op |-> "value", cls |-> "BackgroundImage", syms |-> syms,
                   style |-> JudgeValue("BackgroundImage", "style", syms), attr |-> JudgeValue("BackgroundImage", "attr", syms)]
     /\ UNCHANGED vars
-CNext == \/ (ckind \in AllClasses /\ \E t \in 1..Len(CssTokens[ckind]) : CFeed(t))
+(* argument forms x wrappers x hostile property names: the name travels with a typed (trusted) or plain value "red" *)
+CArgForm(f, w, t) ==
+    /\ ckind \in {"Name", "ArgForm"} /\ (ckind = "Name" => inp = <<>>)
+    /\ Len(inp) < MaxTok + 2
+    /\ inp' = IF ckind = "Name" THEN <<f, w, t>> ELSE Append(inp, t)
+    /\ (ckind = "ArgForm" => inp[1] = f /\ inp[2] = w)
+    /\ ckind' = "ArgForm"
+    /\ LET syms == FlatTok("Name", SubSeq(inp', 3, Len(inp')))
+           ac == Accepting("Name", syms)
+           treat == StyleArgForms[f].name
+       IN lbl' = [op |-> "argform", form |-> StyleArgForms[f].form, wrap |-> StyleArgWrappers[w], syms |-> syms,
+                  treat |-> treat,
+                  out |-> IF treat = "unsupported" THEN "unsupported" ELSE IF treat = "raw" \/ ac.found THEN "name" ELSE "innocuous",
+                  ev |-> IF treat = "raw" \/ (treat = "sanitised" /\ ac.found) THEN ConsumerEvent("Name", "attr", syms) ELSE ""]
+    /\ UNCHANGED vars
+CNext == \/ \E f \in 1..Len(StyleArgForms), w \in 1..Len(StyleArgWrappers), t \in 1..Len(CssTokens["Name"]) : CArgForm(f, w, t)
+         \/ (ckind \in AllClasses /\ \E t \in 1..Len(CssTokens[ckind]) : CFeed(t))
          \/ \E f \in 1..Len(UrlForms), l \in 1..Len(UrlLeads), sc \in 1..Len(UrlSchemes), sp \in 1..Len(UrlSeps), t \in 1..Len(UrlTails) :
                 CUrlShape(f, l, sc, sp, t)
 CView == <<inp, ckind>>
 CEmit == PrintT(<<"CASE", ToJson(lbl')>>)
-PredictionsKnown == lbl.op = "value" => lbl.style.sig \in KnownSigs \cup {"", "StyleAttr.NotEscaped"} /\ lbl.attr.sig \in KnownSigs \cup {"", "StyleAttr.NotEscaped"}
+PredictionsKnown == (lbl.op = "argform" => lbl.ev = "") /\ (lbl.op = "value") => lbl.style.sig \in KnownSigs \cup {"", "StyleAttr.NotEscaped"} /\ lbl.attr.sig \in KnownSigs \cup {"", "StyleAttr.NotEscaped"}
 =============================================================================
